@@ -75,10 +75,53 @@ theorem bind_code_of_unbound (s : St) (id : Nat) (le : LabelEntry) (h1 : s.label
   repeat' split
   all_goals simp_all [done, report]
 
-/-- `embed_const_pool` (with fix C14-12): atomic unless the `bind` inside it leaves through `kInvalidDisplacement` -/
-theorem embedConstPool_atomic (s : St) (id a : Nat) (d : Offset.Bytes)
-    (h : (embedConstPool s id a d).code ≠ Err.invalidDisplacement) : (embedConstPool s id a d).atomicOn s := by
-  unfold embedConstPool at h ⊢
+theorem offset_appendBytes (s : St) (bs : Offset.Bytes) (h : s.cur < s.secs.length) :
+    (appendBytes s bs).offset = s.offset + bs.length := by
+  simp only [St.offset, St.size, appendBytes]
+  simp [h]
+
+theorem offset_appendBytes_invalid (s : St) (bs : Offset.Bytes) (h : ¬ s.cur < s.secs.length) :
+    (appendBytes s bs).offset = 0 ∧ s.offset = 0 := by
+  have h' : s.secs.length ≤ s.cur := Nat.le_of_not_lt h
+  simp only [St.offset, St.size, appendBytes]
+  simp [h']
+
+@[simp] theorem appendBytes_pending (s : St) (bs : Offset.Bytes) : (appendBytes s bs).pending = s.pending := rfl
+@[simp] theorem appendBytes_cur (s : St) (bs : Offset.Bytes) : (appendBytes s bs).cur = s.cur := rfl
+@[simp] theorem appendBytes_labels (s : St) (bs : Offset.Bytes) : (appendBytes s bs).labels = s.labels := rfl
+@[simp] theorem appendBytes_one (s : St) (bs : Offset.Bytes) : (appendBytes s bs).one = s.one := rfl
+
+theorem align_data_effect (s : St) (a : Nat) (hc : (align s 1 a).code = Err.ok) :
+    (align s 1 a).st.offset = alignedOffset s a ∧ (align s 1 a).st.pending = s.pending ∧ (align s 1 a).st.cur = s.cur ∧
+    (align s 1 a).st.labels = s.labels ∧ (align s 1 a).st.one = s.one := by
+  by_cases hcur : s.cur < s.secs.length
+  · simp only [align, alignedOffset] at hc ⊢
+    repeat' split
+    all_goals simp_all [done, report, Err.ok, Err.invalidArgument, Err.invalidState, offset_appendBytes, zeros]
+    all_goals omega
+  · have h0 := fun bs => offset_appendBytes_invalid s bs hcur
+    have hz : s.offset = 0 := (h0 []).2
+    simp only [align, alignedOffset] at hc ⊢
+    repeat' split
+    all_goals simp_all [done, report, Err.ok, Err.invalidArgument]
+/-- a bind whose pending fixups have been validated for the position it binds to succeeds -/
+theorem bind_ok_of_validated (s : St) (id : Nat) (le : LabelEntry) (h1 : s.labels[id]? = some le) (h2 : le.bound = none)
+    (h3 : ((s.pending.filter (·.label = id)).any (unpatchable s.cur s.offset)) = false) : (bind s id).code = Err.ok := by
+  simp only [bind, h1, h2]
+  repeat' split
+  all_goals first
+    | (simp_all [done, report, St.offset, St.size]; done)
+    | (exfalso
+       simp_all [St.offset, St.size]
+       rename_i hex
+       obtain ⟨x, hx1, hx2, hx3⟩ := hex
+       have := h3 x hx1 hx2
+       simp_all)
+
+/-- `embed_const_pool` (fixes C14-12 and C14-14): atomic, whatever it reports - the bind inside it has been validated for the aligned
+offset before `align` writes anything -/
+theorem embedConstPool_atomic (s : St) (id a : Nat) (d : Offset.Bytes) : (embedConstPool s id a d).atomicOn s := by
+  unfold embedConstPool
   split
   · exact report_atomic _ _ _ rfl
   · rename_i le hle
@@ -86,18 +129,23 @@ theorem embedConstPool_atomic (s : St) (id a : Nat) (d : Offset.Bytes)
     · exact report_atomic _ _ _ rfl
     · rename_i hb
       have hb' : le.bound = none := by cases hx : le.bound <;> simp_all
-      simp only [] at h ⊢
       split
-      · rename_i hc
-        exact (align_atomic s 1 a).elim (fun h0 => absurd h0 hc) (fun h0 => Or.inr h0)
-      · split
-        · rename_i hc2
-          exfalso
-          have hl : (align s 1 a).st.labels[id]? = some le := by rw [align_labels]; exact hle
-          rcases bind_code_of_unbound _ id le hl hb' with h3 | h3
-          · exact hc2 h3
-          · simp_all
-        · exact done_atomic _ _
+      · exact report_atomic _ _ _ rfl
+      · rename_i hv
+        simp only []
+        split
+        · rename_i hc
+          exact (align_atomic s 1 a).elim (fun h0 => absurd h0 hc) (fun h0 => Or.inr h0)
+        · rename_i hc
+          have hc' : (align s 1 a).code = Err.ok := by simpa using hc
+          obtain ⟨ho, hp, hcu, hl, _⟩ := align_data_effect s a hc'
+          have hok : (bind (align s 1 a).st id).code = Err.ok := by
+            apply bind_ok_of_validated _ id le (by rw [hl]; exact hle) hb'
+            rw [hp, hcu, ho]
+            simpa using hv
+          split
+          · rename_i hc2; exact absurd hok hc2
+          · exact done_atomic _ _
 
 /-- `new_section` fails without touching anything (and without the handler: it is a CodeHolder call) -/
 theorem newSection_code (s : St) (n a : Nat) : (newSection s n a).code = Err.ok ∨ (newSection s n a).st = s := by
